@@ -24,7 +24,14 @@ def cases_for(ctx, flavor):
                 out.append((prog, fl * k + '^' + v + fl * 3))
                 if k % 2 == 0: out.append((prog, (others * 6) + fl * k + '^' + v + v * 2 + '^' + v + fl * 4))
                 if k % 3 == 0: out.append((prog, fl * k + '^' + v + v + ''.join('>' + o for o in others) + v * 5))
-    n = 500 if ctx.quick() else 6000
+    # the interrupted thread completes its operations, then takes k steps of its exit path (bp: un-registration); the handler is delivered there, completes its
+    # rcu_read_lock (j steps), every other thread completes an operation (a whole grace period), then the handler goes on
+    for prog in ('(q)/SS', '(r)/S(q)S'):
+        th = [str(i) for i in range(prog.count('/') + 1)]; v = '0'; fl = v + 'a'
+        for k in range(0, 16 if ctx.quick() else 30):
+            for j in (4, 6, 9):
+                out.append((prog, '>0' * 3 + fl * k + '^0' + fl * j + '>1' + fl * 6 + '>1'))
+    n = 600 if ctx.quick() else 6000
     while len(out) < n:
         prog = ctx.rng.choice(PROGS); th = [str(i) for i in range(prog.count('/') + 1)]
         s = bursty(ctx.rng, th, lo=40, hi=300, flush=ctx.rng.choice([0.0, 0.1, 0.3]), means=(1, 3, 10, 30))
